@@ -216,11 +216,12 @@ type Conn struct {
 	mu   sync.Mutex
 	cond *sync.Cond
 
-	inq     []chunk
-	eof     bool
-	stalled bool
-	closed  bool
-	blocked bool // server is parked in Read with nothing to deliver
+	inq         []chunk
+	eof         bool
+	stalled     bool
+	closed      bool
+	blocked     bool // server is parked in Read with nothing to deliver
+	eofWithData bool // the Read delivering the last bytes also returns io.EOF
 	// reads answered with a timeout / EOF since the peer fell silent / hung up: a server that
 	// keeps reading after several of them is "open and still reading" for WaitQuiescent
 	stallTimeouts, eofReads int
@@ -303,6 +304,12 @@ func (c *Conn) Read(p []byte) (int, error) {
 			c.blocked = false
 			c.readHist[sizeBucket(n)]++
 			c.net.Log(c.ID, KReadReturn, n, "")
+			if len(c.inq) == 0 && c.eof && c.eofWithData {
+				// the transport hands over the last bytes together with the end of the stream
+				// (io.Reader allows n > 0 with io.EOF; TLS connections do it)
+				c.net.Log(c.ID, KReadEOF, n, "with the last bytes")
+				return n, io.EOF
+			}
 			return n, nil
 		}
 		if c.eof {
@@ -472,6 +479,16 @@ func (c *Conn) EOF() {
 	c.mu.Lock()
 	c.eof = true
 	c.blocked = false // a parked reader wakes up and gets the EOF
+	c.cond.Broadcast()
+	c.mu.Unlock()
+}
+
+// EOFWithLastBytes: like EOF, but the Read that delivers the last queued bytes also returns io.EOF.
+func (c *Conn) EOFWithLastBytes() {
+	c.mu.Lock()
+	c.eof = true
+	c.eofWithData = true
+	c.blocked = false
 	c.cond.Broadcast()
 	c.mu.Unlock()
 }
